@@ -47,6 +47,8 @@ type gobCallee struct {
 	Returns          [][]returnOperandFlags // metadata about result expressions for each return
 	Labels           []string               // names of all control labels
 	Falcon           falconResult           // falcon constraint system
+	RecvBase         string                 // (bbcheck) generic receiver's base type name, "" if not generic
+	RecvTypeParams   []string               // (bbcheck) the receiver's names for the type parameters
 }
 
 // returnOperandFlags records metadata about a single result expression in a return
@@ -118,8 +120,19 @@ func AnalyzeCallee(logf func(string, ...any), fset *token.FileSet, pkg *types.Pa
 	// ident or qualified ident to prevent "if x == struct{}"
 	// parsing ambiguity, or "T(x)" where T = "*int" or "func()"
 	// from misparsing.
-	if funcHasTypeParams(decl) {
+	// (bbcheck) A method of a generic type is accepted when it is inlined into another method of the same type
+	// whose receiver names the type parameters identically: the callee's references to them then mean the same in
+	// the caller, textually. The caller side is checked in inline().
+	var recvTypeParams []string
+	var recvBase string
+	if decl.Type.TypeParams != nil {
 		return nil, fmt.Errorf("cannot inline generic function %s: type parameters are not yet supported", name)
+	}
+	if funcHasTypeParams(decl) {
+		recvBase, recvTypeParams = recvTypeParamNames(decl)
+		if recvBase == "" {
+			return nil, fmt.Errorf("cannot inline generic function %s: type parameters are not yet supported", name)
+		}
 	}
 
 	// Record the location of all free references in the FuncDecl.
@@ -367,6 +380,8 @@ func AnalyzeCallee(logf func(string, ...any), fset *token.FileSet, pkg *types.Pa
 		Returns:          returnInfo,
 		Labels:           labels,
 		Falcon:           falcon,
+		RecvBase:         recvBase,
+		RecvTypeParams:   recvTypeParams,
 	}}, nil
 }
 
@@ -841,4 +856,39 @@ func (callee *Callee) GobEncode() ([]byte, error) {
 
 func (callee *Callee) GobDecode(data []byte) error {
 	return gob.NewDecoder(bytes.NewReader(data)).Decode(&callee.impl)
+}
+
+// recvTypeParamNames returns the base type name and the type parameter names of a generic receiver
+// (func (x *T[A, B]) ...), or "" if any of them is not a plain identifier.
+func recvTypeParamNames(decl *ast.FuncDecl) (string, []string) {
+	if decl.Recv == nil || len(decl.Recv.List) == 0 {
+		return "", nil
+	}
+	t := decl.Recv.List[0].Type
+	if u, ok := t.(*ast.StarExpr); ok {
+		t = u.X
+	}
+	var base ast.Expr
+	var idx []ast.Expr
+	switch x := t.(type) {
+	case *ast.IndexExpr:
+		base, idx = x.X, []ast.Expr{x.Index}
+	case *ast.IndexListExpr:
+		base, idx = x.X, x.Indices
+	default:
+		return "", nil
+	}
+	b, ok := base.(*ast.Ident)
+	if !ok {
+		return "", nil
+	}
+	var names []string
+	for _, e := range idx {
+		id, ok := e.(*ast.Ident)
+		if !ok || id.Name == "_" {
+			return "", nil
+		}
+		names = append(names, id.Name)
+	}
+	return b.Name, names
 }
